@@ -134,6 +134,22 @@ Proof.
   eapply pff_act; [apply fifo_drain_pf; exact D | exact IH].
 Qed.
 
+(* a given delivery order is a per-channel-FIFO run (used for examples) *)
+Fixpoint pf_check (rv : raftrev) (ks : list nat) (c : cluster) : bool :=
+  match ks with
+  | [] => match c_net c with [] => true | _ => false end
+  | k :: rest => (k <? length (c_net c))%nat && deliverable (c_net c) k && pf_check rv rest (step rv c (Deliver k 0))
+  end.
+
+Lemma pf_check_sound : forall rv ks c,
+  pf_check rv ks c = true -> pf_run rv c (run_from rv c (map (fun k => Deliver k 0) ks)).
+Proof.
+  intros rv. induction ks as [|k rest IH]; intros c H; cbn [pf_check] in H.
+  - cbn [map]. change (run_from rv c []) with c. apply pf_done. destruct (c_net c); [reflexivity | discriminate H].
+  - apply andb_true_iff in H as [H H3]. apply andb_true_iff in H as [H1 H2].
+    apply (pf_step rv c k); [apply Nat.ltb_lt; exact H1 | exact H2 | exact (IH _ H3)].
+Qed.
+
 Definition ReachP (rv : raftrev) (G : cluster -> Prop) (s : cluster) : Prop :=
   forall c c', strip c = s -> pf_run rv c c' -> G (strip c').
 
